@@ -31,9 +31,6 @@ func runC17(p *Prog, r *Report, tier string) {
 		r.Undecided("R-SIBLING.unknown", "anchor: template field reader (calls registry.GetInfoElementFromID)", "pkg/collector/process.go", "not found")
 	} else {
 		lookups := callsTo(fr, "pkg/registry.GetInfoElementFromID")
-		if len(lookups) != 2 {
-			r.Undecided("R-SIBLING.unknown", fnKey(fr)+": registry lookups", p.pos(fr.Pos()), fmt.Sprintf("found %d lookups, expected the IANA and the enterprise branch", len(lookups)))
-		}
 		// the field specifier decode: targets (elementid []byte, elementLength uint16)
 		var specDecode *ssa.Call
 		eachInstr(fr, func(in ssa.Instruction) {
@@ -41,6 +38,22 @@ func runC17(p *Prog, r *Report, tier string) {
 				specDecode = c
 			}
 		})
+		// IANA and enterprise-specific elements alike are looked up: no path from the field-specifier read to the creation
+		// of the template field avoids a lookup (one shared lookup after the two branches, or one per branch)
+		if specDecode != nil {
+			isLookup := map[ssa.Instruction]bool{}
+			for _, l := range lookups {
+				isLookup[l] = true
+			}
+			q := &pathQuery{noExit: true, discharge: func(in ssa.Instruction) bool { return isLookup[in] },
+				terminal: func(in ssa.Instruction) bool {
+					c, ok := in.(*ssa.Call)
+					return ok && calleeName(&c.Call) == "pkg/entities.DecodeAndCreateInfoElementWithValue"
+				}}
+			trail, bad := q.find(specDecode)
+			r.Check(!bad, "R-SIBLING.unknown", fnKey(fr)+": registry lookups", p.pos(fr.Pos()), fmt.Sprintf("%d lookup(s); every path from the field specifier to the template field passes one", len(lookups)),
+				"a template field can be created without a registry lookup ("+p.describePath(fr, trail)+"): one kind of element (IANA / enterprise) is never resolved", true)
+		}
 		specTargets := decodeTargets(specDecode)
 		for i, lin := range lookups {
 			lk := lin.(*ssa.Call)
